@@ -152,5 +152,26 @@ def dynamics_expectations(inp):
     return {'violates': bool(bad), 'detail': bad}
 
 
+def api_time_grid(inp):
+    """Tempo / PtTempo built through their constructors with start_time != 0: states labelled start_time + k dt, process tensor of
+    exactly the number of whole steps"""
+    import numpy as np
+    import oqupy
+    sz, sx = oqupy.operators.sigma('z'), oqupy.operators.sigma('x')
+    corr = oqupy.PowerLawSD(alpha=0.1, zeta=1.0, cutoff=3.0, cutoff_type='exponential', temperature=0.2)
+    bath = oqupy.Bath(0.5 * sz, corr)
+    par = oqupy.TempoParameters(dt=0.1, dkmax=3, epsrel=1e-6)
+    bad = []
+    for t0 in (0.7, -1.3):
+        d = oqupy.Tempo(oqupy.System(0.3 * sx), bath, par, oqupy.operators.spin_dm('z+'), t0).compute(t0 + 0.5, progress_type='silent')
+        want = t0 + 0.1 * np.arange(6)
+        if len(d.times) != 6 or np.abs(np.array(d.times) - want).max() > 1e-12:
+            bad.append({'Tempo start_time': t0, 'times': [float(x) for x in d.times]})
+        pt = oqupy.PtTempo(bath, t0, t0 + 0.5, par).get_process_tensor(progress_type='silent')
+        if len(pt) != 5:
+            bad.append({'PtTempo start_time': t0, 'length': len(pt)})
+    return {'violates': bool(bad), 'detail': bad}
+
+
 # thorough tier (bounded native sweeps): (function, inputs, obligation of the open finding it reproduces or None)
-THOROUGH = [('steps_search', {}, None), ('compute_dynamics_times', {}, None), ('dynamics_add', {}, None), ('mean_field_dynamics_add', {}, None), ('dynamics_expectations', {}, None)]
+THOROUGH = [('steps_search', {}, None), ('compute_dynamics_times', {}, None), ('dynamics_add', {}, None), ('mean_field_dynamics_add', {}, None), ('dynamics_expectations', {}, None), ('api_time_grid', {}, None)]
